@@ -306,6 +306,8 @@ static json observe_track(dj::track& t, bool with_snapshot)
     return o;
 }
 
+static size_t g_max_names = 1000000;
+
 static json observe_crate(State& st, dj::crate& c)
 {
     json o;
@@ -320,17 +322,22 @@ static json observe_crate(State& st, dj::crate& c)
     o["descendants"] = guarded([&] { return sorted_ids(crate_ids(c.descendants())); });
     o["tracks"] = guarded([&] { auto v = track_ids(c.tracks()); return st.is_v2 ? v : sorted_ids(v); });
     json sub;
+    size_t nn = 0;
     for (auto& n : st.names)
+    {
+        if (++nn > g_max_names) break;
         sub[hex_of(n)] = guarded([&] {
             auto s = c.sub_crate_by_name(n);
             return s ? json(s->id()) : json(nullptr);
         });
+    }
     o["sub_crate_by_name"] = sub;
     return o;
 }
 
 static json observe_all(State& st, const json& a)
 {
+    g_max_names = a.value("max_names", (size_t)1000000);
     bool with_snapshot = a.value("snapshots", true);
     bool with_tracks = a.value("tracks", true);
     bool with_crates = a.value("crates", true);
@@ -437,8 +444,10 @@ static json observe_all(State& st, const json& a)
     d["crate_by_id"] = cbi;
     d["track_by_id"] = tbi;
     json cbn, rcbn, tbp;
+    size_t nnames = 0;
     for (auto& n : st.names)
     {
+        if (++nnames > g_max_names) break;
         cbn[hex_of(n)] = guarded([&] { return sorted_ids(crate_ids(db.crates_by_name(n))); });
         rcbn[hex_of(n)] = guarded([&] {
             auto c = db.root_crate_by_name(n);
